@@ -144,6 +144,12 @@ def gen_lib(r, name=None, language=None, nfunc=None, wrap=None, options=None):
         decls.append({"decl": "void %s(double d)" % base})
         if r.random() < 0.5:
             decls.append({"decl": "void %s(int i, int j)" % base})
+    if r.random() < 0.35:
+        # typedefs whose typemaps name the same header for C and C++ (like MPI_Comm): exercises header ordering
+        tds = r.sample(["LengthId", "MassId", "TimeId", "ChargeId"], r.randrange(2, 4))
+        for t in tds:
+            decls.append({"decl": "typedef int %s" % t, "fields": {"c_header": t.lower() + ".h", "cxx_header": t.lower() + ".h"}})
+        decls.append({"decl": "void combine%d(%s)" % (r.randrange(9), ", ".join("%s v%d" % (t, k) for k, t in enumerate(tds)))})
     if r.random() < 0.5:
         decls.append(gen_enum(r, "Color" + str(r.randrange(9)), scoped=(language != "c" and r.random() < 0.3)))
     if language != "c" and r.random() < 0.6:
